@@ -81,8 +81,10 @@ class NoMatch(Exception):
     pass
 
 
-def _unify(pat: Any, node: Any, env: dict[str, Any]) -> None:
-    """pattern tree (with placeholder Names) vs concrete tree; raises NoMatch"""
+def _unify(pat: Any, node: Any, env: dict[str, Any], lenient: bool = False) -> None:
+    """pattern tree (with placeholder Names) vs concrete tree; raises NoMatch.  `lenient`: a placeholder that occurs twice may
+    stand for two DIFFERENT source expressions (the first binding is kept) — what a check's message claims when the check
+    took two different operands for the same one; the rewrite is then built as a reader of the message would build it."""
     if isinstance(pat, ast.Name) and (pat.id in PLACEHOLDERS or pat.id == "__ellipsis__"):
         if not isinstance(node, ast.AST):
             raise NoMatch
@@ -90,7 +92,7 @@ def _unify(pat: Any, node: Any, env: dict[str, Any]) -> None:
         if key == "__ellipsis__":
             return  # matches anything, binds nothing
         if key in env:
-            if ast.dump(env[key]) != ast.dump(node):
+            if ast.dump(env[key]) != ast.dump(node) and not lenient:
                 raise NoMatch
         else:
             env[key] = node
@@ -101,7 +103,7 @@ def _unify(pat: Any, node: Any, env: dict[str, Any]) -> None:
         for field in pat._fields:
             if field in ("ctx", "type_comment", "kind"):
                 continue
-            _unify(getattr(pat, field, None), getattr(node, field, None), env)
+            _unify(getattr(pat, field, None), getattr(node, field, None), env, lenient)
     elif isinstance(pat, list):
         # an `...` element (Expr(Name __ellipsis__) or Name __ellipsis__) absorbs any number of elements
         def is_dots(p: Any) -> bool:
@@ -117,9 +119,9 @@ def _unify(pat: Any, node: Any, env: dict[str, Any]) -> None:
             if len(node) < len(head) + len(tail):
                 raise NoMatch
             for p, n in zip(head, node[: len(head)]):
-                _unify(p, n, env)
+                _unify(p, n, env, lenient)
             for p, n in zip(tail, node[len(node) - len(tail) :] if tail else []):
-                _unify(p, n, env)
+                _unify(p, n, env, lenient)
             mid = node[len(head) : len(node) - len(tail)]
             if "__ellipsis__" in env and [ast.dump(m) for m in env["__ellipsis__"]] != [ast.dump(m) for m in mid]:
                 raise NoMatch
@@ -128,7 +130,7 @@ def _unify(pat: Any, node: Any, env: dict[str, Any]) -> None:
         if len(pat) != len(node):
             raise NoMatch
         for p, n in zip(pat, node):
-            _unify(p, n, env)
+            _unify(p, n, env, lenient)
     else:
         if pat != node:
             raise NoMatch
@@ -174,7 +176,7 @@ class _Subst(ast.NodeTransformer):
         return node
 
 
-def instantiate(old: str, new: str, segment: str) -> tuple[str, str] | None:
+def instantiate(old: str, new: str, segment: str, lenient: bool = False) -> tuple[str, str] | None:
     """-> (kind, concrete replacement source) or None when OLD does not describe the segment"""
     try:
         kind_o, pat = _parse_fragment(old)
@@ -198,7 +200,7 @@ def instantiate(old: str, new: str, segment: str) -> tuple[str, str] | None:
             out_node = type(newt)(elts=list(seg.elts), ctx=ast.Load())
             return "expr", ast.unparse(ast.fix_missing_locations(out_node))
     try:
-        _unify(pat, seg, env)
+        _unify(pat, seg, env, lenient)
     except NoMatch:
         return None
     try:
@@ -271,6 +273,12 @@ def apply_rewrite(source: str, d: dict[str, Any]) -> tuple[str, str] | tuple[Non
         if kind == "invalid":
             return None, "replacement is not valid Python: " + text
         return splice(a, b, kind, text)
+    # the message names ONE placeholder for two different source expressions (the check took them for the same operand): build
+    # the rewrite the way a reader of the message would — whether it preserves behaviour is for the caller to find out
+    for a, b, node in cands:
+        inst = instantiate(old, new, source[a:b], lenient=True)
+        if inst is not None and inst[0] != "invalid":
+            return splice(a, b, inst[0], inst[1])
     # operator fragments: `in [x, y]` -> `in (x, y)`, `in d.keys()` -> `in d`
     for op in ("not in ", "in ", "is not ", "is "):
         if old.startswith(op) and new.startswith(op):
